@@ -109,7 +109,7 @@ def extract_constants():
         sig = inspect.signature(cls.__init__)
         params = [p for p in sig.parameters if p != "self" and (cname, p) not in DERIVED
                   and sig.parameters[p].kind in (inspect.Parameter.POSITIONAL_OR_KEYWORD, inspect.Parameter.KEYWORD_ONLY)]
-        with quiet():
+        with quiet(), drive.time_limit(240):
             probe = cls(**minimal)
             saved = list(cls._yaml_repr(probe).keys())
         default = {}
@@ -187,7 +187,7 @@ def behaviour(cname, obj):
     from .checks_objects import _digest_result
     from panoptica import UnmatchedInstancePair, SemanticPair
     try:
-        with quiet():
+        with quiet(), drive.time_limit(240):
             if cname == "Panoptica_Evaluator":
                 parts = []
                 for pred, ref in _probe_inputs():
@@ -235,13 +235,13 @@ def round_trip(cname, cls, kwargs, params, workdir: Path, meta=None) -> dict:
     shutil.rmtree(workdir, ignore_errors=True)
     workdir.mkdir(parents=True)
     try:
-        with quiet():
+        with quiet(), drive.time_limit(240):
             obj = cls(**kwargs)
     except Exception as e:  # noqa: BLE001   not a valid configuration: the constructor itself rejects it
         rec["meta"]["invalid"] = f"{type(e).__name__}: {e}"[:200]
         return None
     try:
-        with quiet():
+        with quiet(), drive.time_limit(240):
             rep = cls._yaml_repr(obj)
             # what the object was constructed with: explicit arguments, otherwise what it reports itself
             rec["orig"] = [tok(kwargs[p]) if p in kwargs and kwargs[p] is not None else tok(rep.get(p, None)) for p in params]
